@@ -1,5 +1,5 @@
 """C02  Only the benchmarked calls happen inside a sample's timed section."""
-from lib.facts import norm
+from lib.facts import norm, origins, direct_place
 from lib.paths import Explorer, call_sequences
 from .common import Recorder, START, END, TIMED_PLUMBING
 
@@ -461,6 +461,50 @@ def r02_6(ctx, prog, crate):
                   "the overhead is not computed per raw sample (owner %s)" % (show(owner) if owner else None), c.line())
 
 
+def r02_7(ctx, prog, crate):
+    """What is subtracted from a sample was measured with the clock that timed the sample: every value a Timer method
+    caches in a static (precision, sample-loop overhead, the overhead set) lives in a per-kind array of cells and is read
+    at `self.kind() as usize` - one timer kind never reuses what the other kind's clock measured."""
+    from lib.symexpr import Sym, show
+    n = 0
+    for b in prog.lib_bodies(crate):
+        if not b.path.startswith("time::timer::Timer::") or b.kind == "Closure" or "::tests::" in b.path or "::benches::" in b.path:
+            continue
+        gois = [c for c in b.live_calls() if c.callee.endswith("OnceLock::get_or_init")]
+        if not gois:
+            continue
+        ctx.saw(b)
+        S = Sym(b, site_args=True)
+        for c in gois:
+            n += 1
+            # the cell: &CACHED[idx]
+            cell = None
+            d = direct_place(b, c.args[0])
+            for bi, si, s in b.stmts():
+                if s["k"] == "assign" and s["rv"]["k"] == "ref" and any(pr["k"] == "index" for pr in s["rv"]["p"]["proj"]):
+                    if any(z.kind == "static" for z in b.prov.place_src(s["rv"]["p"])) or "static" in str(b.prov.local_src(s["rv"]["p"]["l"])):
+                        pr = [p_ for p_ in s["rv"]["p"]["proj"] if p_["k"] == "index"][0]
+                        cell = (bi, S.local(pr["l"]))
+            ok = cell is not None and cell[1][0] == "discr" and cell[1][1][0] == "site" and cell[1][1][1] == "time::timer::Timer::kind" and \
+                cell[1][1][3] and cell[1][1][3][0] in (("arg", 1, ()), ("sptr", (1, ())))
+            ctx.check(ok, "R02.7", [b.path.rsplit("::", 1)[-1], "cached-per-timer-kind"],
+                      "`%s` caches its measurement in %s: expected a per-kind array of cells read at `self.kind() as usize` (a process-wide cell lets one clock's measurement be "
+                      "subtracted from samples timed by the other)" % (b.path, "a cell indexed by " + show(cell[1]) if cell else "a single static cell"), c.line())
+            # the initialiser measures with this very timer (self captured)
+            cl = None
+            for o in origins(b, c.args[1]):
+                if o[0] == "rvalue" and o[1]["k"] == "agg" and o[1]["ak"] == "closure":
+                    cl = prog.bodies.get((b.crate, norm(o[1]["def"]), -1))
+            if ctx.check(cl is not None, "R02.7", [b.path.rsplit("::", 1)[-1], "initialiser"], "cannot find the cache initialiser", c.line()):
+                recv = set()
+                for cc in cl.live_calls():
+                    if cc.callee.startswith("time::timer::Timer::") and cc.args:
+                        recv |= {z.label().split(".")[0] for z in cl.prov.op_src(cc.args[0]) if z.kind in ("upvar", "param", "const", "variant")}
+                ctx.check(recv and all(r.startswith("upvar:") for r in recv), "R02.7", [b.path.rsplit("::", 1)[-1], "measured-with-this-timer"],
+                          "the cached value is measured with %s, expected the timer itself (captured self)" % sorted(recv), cl.where(0))
+    ctx.anchor("R02.7", "Timer methods caching a measurement in a static", n, 3)
+
+
 def r02_5(ctx, prog, crate):
     """The figures of a sample are the operations between its two timestamps ONLY if the clear before the start timestamp
     really resets the tally: ThreadAllocInfo::clear is unconditional and total (clause shared with C10, R10.5)."""
@@ -470,6 +514,7 @@ def r02_5(ctx, prog, crate):
 
 
 def run(ctx, prog, crate):
+    r02_7(ctx, prog, crate)
     r02_6(ctx, prog, crate)
     r02_5(ctx, prog, crate)
     rec = r02_1(ctx, prog, crate)
